@@ -535,6 +535,74 @@ def run_accessors(p):
     return res
 
 
+def reachable_tensors(o):
+    return [v[3] for k, v in obj_state(o).items() if v[0] == "tensor"], [k for k, v in obj_state(o).items() if v[0] == "tensor"]
+
+
+def live_tensors(o, depth=0, out=None, seen=None):
+    """the actual tensor objects an object refers to (for in-place edits)"""
+    out = out if out is not None else []
+    seen = seen if seen is not None else set()
+    if id(o) in seen or depth > 5:
+        return out
+    seen.add(id(o))
+    if isinstance(o, Tensor):
+        out.append(o)
+        for v in getattr(o, "__dict__", {}).values():
+            live_tensors(v, depth + 1, out, seen)
+    elif isinstance(o, torch.nn.Module):
+        for v in list(o._parameters.values()) + list(o._buffers.values()) + list(o._modules.values()):
+            if v is not None:
+                live_tensors(v, depth + 1, out, seen)
+        for k, v in o.__dict__.items():
+            if k not in ("_parameters", "_buffers", "_modules") and not k.startswith("_forward") and not k.startswith("_backward"):
+                live_tensors(v, depth + 1, out, seen)
+    elif hasattr(o, "__slots__") and type(o).__module__.startswith("deepali"):
+        for k in o.__slots__:
+            if hasattr(o, k):
+                live_tensors(getattr(o, k), depth + 1, out, seen)
+    elif isinstance(o, (list, tuple)):
+        for v in o:
+            live_tensors(v, depth + 1, out, seen)
+    elif isinstance(o, dict):
+        for v in o.values():
+            live_tensors(v, depth + 1, out, seen)
+    return out
+
+
+def run_deepcopies(p):
+    """deep copies are independent in both directions: edit every tensor of one side in place, the other side must not change"""
+    res = []
+    for D in (2, 3):
+        objs, sp = make_objects(D)
+        for oname, factory in objs.items():
+            for how in ("deepcopy", "clone"):
+                try:
+                    o = factory()
+                except Exception:  # noqa  (class not available for this dimension)
+                    continue
+                try:
+                    if how == "clone":
+                        if not hasattr(o, "clone") or isinstance(o, torch.nn.Module):
+                            continue
+                        c = o.clone()
+                    else:
+                        c = copy.deepcopy(o)
+                except Exception as e:  # noqa
+                    res.append({"obj": oname, "D": D, "how": how, "status": "raised", "exc": f"{type(e).__name__}: {str(e)[:100]}", "changed": []})
+                    continue
+                for direction, (edited, watched) in (("copy-edited", (c, o)), ("original-edited", (o, c))):
+                    before = obj_state(watched)
+                    with torch.no_grad():
+                        for t in live_tensors(edited):
+                            if t.is_floating_point() and t.numel():
+                                t.add_(1.0)
+                    ch = diff_state(before, obj_state(watched))
+                    res.append({"obj": oname, "D": D, "how": how, "direction": direction, "status": "ok",
+                                "changed": [{"slot": s_, "what": w} for s_, w in ch[:4]]})
+    return res
+
+
 # ------------------------------------------------------------------------------------------------
 # 3. object graph replay (correspondence with Model/ObjGraph.v)
 # ------------------------------------------------------------------------------------------------
@@ -632,6 +700,8 @@ def main():
         emit_json(run_accessors(p))
     elif fn == "graph":
         emit_json(run_graph(p))
+    elif fn == "deepcopies":
+        emit_json(run_deepcopies(p))
     else:
         raise SystemExit("unknown fn")
 
